@@ -249,7 +249,7 @@ func (ft *fileTx) t1Body(body *ast.BlockStmt, fname string, counter *int) bool {
 		if t == nil {
 			return true
 		}
-		if _, isMap := t.Underlying().(*types.Map); !isMap {
+		if !isMapType(t) {
 			return true
 		}
 		*counter++
@@ -261,6 +261,40 @@ func (ft *fileTx) t1Body(body *ast.BlockStmt, fname string, counter *int) bool {
 		return true
 	})
 	return changed
+}
+
+// isMapType: a map type, or a type parameter all of whose type terms are map types
+// (func f[M ~map[string]V, V any](m M) { for k := range m … } ranges over a map just the same).
+func isMapType(t types.Type) bool {
+	if _, ok := t.Underlying().(*types.Map); ok {
+		return true
+	}
+	tp, ok := t.(*types.TypeParam)
+	if !ok {
+		return false
+	}
+	iface, _ := tp.Constraint().Underlying().(*types.Interface)
+	if iface == nil {
+		return false
+	}
+	found := false
+	for i := 0; i < iface.NumEmbeddeds(); i++ {
+		switch e := iface.EmbeddedType(i).(type) {
+		case *types.Union:
+			for j := 0; j < e.Len(); j++ {
+				if _, ok := e.Term(j).Type().Underlying().(*types.Map); !ok {
+					return false
+				}
+				found = true
+			}
+		default:
+			if _, ok := e.Underlying().(*types.Map); !ok {
+				return false
+			}
+			found = true
+		}
+	}
+	return found
 }
 
 func isBlank(e ast.Expr) bool {
